@@ -128,6 +128,21 @@ def json_close(a, b, exact=True, tol=1e-12):
     return a == b
 
 
+def switch_named_like_string(M):
+    """a multi-coupling connection whose switch-site operator has the name of the string left of it"""
+    from tenpy.networks.terms import MultiCouplingTerms
+    ct = M.all_coupling_terms()
+    if not isinstance(ct, MultiCouplingTerms):
+        return False
+    tl = ct._fill_term_list(ct.terms_left, ct._connect_left)
+    for l, c in zip(tl, ct.connections):
+        if c is None or not l:
+            continue
+        if c[1] == l[-1][2] and c[1] != 'Id':
+            return True
+    return False
+
+
 def centered_left(case):
     """a centred exponentially decaying term with at least one site left of the centre"""
     for c in case.get('calls', []):
@@ -321,9 +336,18 @@ def check_case(case, lean_out, real=None, use_model=True):
     if lean_out.get('spec_ok') is True:
         facts['spec_ok'] = True
     if not lean_out.get('paths_ok'):
-        fails.append(('correspondence', 'model.graph_paths',
-                      'denotation of the model graph differs from the formal sum of the model term lists: '
-                      + json.dumps(lean_out.get('denote_graph'))[:400] + ' vs ' + json.dumps(lean_out.get('denote_terms'))[:400]))
+        detail = ('path sum of the MPO graph differs from the formal sum of the term lists: '
+                  + json.dumps(lean_out.get('denote_graph'))[:400] + ' vs ' + json.dumps(lean_out.get('denote_terms'))[:400])
+        struct_ok = not any(f[1] in ('model.edges', 'model.tl_onsite', 'model.tl_coupling', 'model.tl_exp', 'model.ct', 'model.ot')
+                            for f in fails)
+        if struct_ok and switch_named_like_string(M):
+            # edges and term lists of the model are those of the implementation: the implementation's own
+            # to_TermList() lost an operator
+            fails.append(('property', 'termlist.multi.switch_operator_named_like_string',
+                          'MultiCouplingTerms.to_TermList() drops the operator on site switchLR because its name equals '
+                          'the operator string to its left; ' + detail))
+        else:
+            fails.append(('correspondence', 'model.graph_paths', detail))
     # Lean's formal sum evaluated with the site matrices vs the oracle
     mb = oc.ManyBody(lat.mps_sites() * (n_cells if infinite else 1))
     if not infinite:
